@@ -130,7 +130,7 @@ func genMathextRef(gen *vlib.G) {
 		x := x
 		sfCase(gen, fmt.Sprintf("Zeta vs direct summation x=%g", x), func(r *rep, e *sfErr) {
 			const N = 20000
-			for _, q := range []float64{1e-3, 0.25, 0.5, 1, 1.5, 2, 5, 8.5, 9, 9.5, 10, 50, 1e3} {
+			for _, q := range []float64{1e-3, 0.25, 0.5, 1, 1.5, 2, 5, 8.5, 9, 9.5, 10, 50, 1e3, 1e5, 1e7, 0.99e8, 1e8, math.Nextafter(1e8, 2e8), 1.01e8, 1e10, 1e15} {
 				arg := fmt.Sprintf("x=%g q=%s", x, g(q))
 				// Kahan sum of the first N terms, smallest first, plus the midpoint estimate of the rest
 				s, c := 0.0, 0.0
@@ -188,7 +188,7 @@ func genMathextRef(gen *vlib.G) {
 				if q < 1e3 {
 					nx := mathext.Zeta(x, q+1)
 					t := math.Pow(q, -x)
-					tolr := 1e-12 * (math.Abs(got) + math.Abs(t) + math.Abs(nx))
+					tolr := 1e-12*(math.Abs(got)+math.Abs(t)+math.Abs(nx)) + 1e-13*sabs // +-(1/2)^-x cancel for odd x
 					d := math.Abs(got - (t + nx))
 					e.see(d/tolr, arg)
 					if !(d <= tolr) {
@@ -221,9 +221,9 @@ func genMathextRef(gen *vlib.G) {
 					continue
 				}
 				arg := fmt.Sprintf("a=%g x=%s", a, g(x))
-				p := glAdaptive(dens, 0, x, 1e-15, 0, math.Inf(1))
+				p := glAdaptive(dens, 0, x, 0, 0, math.Inf(1))
 				hi := math.Max(x, a) + 60*math.Sqrt(a) + 60
-				q := glAdaptive(dens, x, hi, 1e-15)
+				q := glAdaptive(dens, x, hi, 0)
 				for i, pr := range [][2]float64{{mathext.GammaIncReg(a, x), p}, {mathext.GammaIncRegComp(a, x), q}} {
 					if pr[1] < 1e-200 {
 						continue
